@@ -87,7 +87,7 @@ type Plan struct {
 	Nodes   []NodeSpec `json:"nodes"`
 	Ls      []LSpec    `json:"ls,omitempty"`
 	Ops     []OpSpec   `json:"ops"`
-	Drain   []int      `json:"drain"`             // order in which still open scopes are closed at the end
+	Drain   []int      `json:"drain"`              // order in which still open scopes are closed at the end
 	DrainBC bool       `json:"drain_bc,omitempty"` // wait for before-close between the final closes
 }
 
@@ -129,10 +129,10 @@ const (
 type ent struct {
 	Seq   int    `json:"s"`
 	T     string `json:"t"`
-	Op    int    `json:"op"`           // operation (call/ret) or the operation whose goroutine ran the listener (-1 unknown)
-	Node  int    `json:"n"`            // target scope / scope carried by the event (-1 none, -2 unknown object)
-	Ev    int    `json:"ev"`           // event id (-1 none)
-	Lid   int    `json:"lid"`          // listener index (-1 none)
+	Op    int    `json:"op"`            // operation (call/ret) or the operation whose goroutine ran the listener (-1 unknown)
+	Node  int    `json:"n"`             // target scope / scope carried by the event (-1 none, -2 unknown object)
+	Ev    int    `json:"ev"`            // event id (-1 none)
+	Lid   int    `json:"lid"`           // listener index (-1 none)
 	IDs   []int  `json:"ids,omitempty"` // error ids (append call, error event data, listener error, probe content)
 	Panic string `json:"panic,omitempty"`
 	Err   bool   `json:"err,omitempty"`  // ret: the call returned an error; probe: Err()!=nil
